@@ -1,6 +1,7 @@
 package jschema
 
 import (
+	"encoding/json"
 	"fmt"
 
 	schema "github.com/jsightapi/jsight-schema-core"
@@ -73,7 +74,18 @@ func FromRSchema(s *regex.RSchema) (*JSchema, error) {
 		return nil, errs.ErrRegexExample.F(err)
 	}
 
-	ss := New(s.File.Name(), fmt.Sprintf("%q // {regex: %q}", example, pattern))
+	// The example and the pattern have to be JSON strings: Go's %q produces escapes
+	// like \a or \x00 which are not valid in a schema.
+	jsonExample, err := json.Marshal(string(example))
+	if err != nil {
+		return nil, errs.ErrRegexExample.F(err)
+	}
+	jsonPattern, err := json.Marshal(pattern)
+	if err != nil {
+		return nil, errs.ErrRegexExample.F(err)
+	}
+
+	ss := New(s.File.Name(), fmt.Sprintf("%s // {regex: %s}", jsonExample, jsonPattern))
 	if err = ss.load(); err != nil {
 		return nil, errs.ErrLoadError.F(err)
 	}
